@@ -235,6 +235,20 @@ def build_record(spec: Dict[str, Any]) -> Any:
         built = [FeatureLocation(lo, hi, strand) for lo, hi, strand in parts]
         return built[0] if len(built) == 1 else CompoundLocation(built)
 
+    if spec.get("genbank"):
+        # a record as antiSMASH really gets it: parsed from GenBank text (DBLINK lines -> dbxrefs, the
+        # wrapped SeqRecord keeps its own feature list), optionally with per-letter annotations
+        from io import StringIO
+        from Bio import SeqIO
+        from antismash.common.secmet import Record
+        bio = SeqIO.read(StringIO(spec["genbank"]), "genbank")
+        for key, values in (spec.get("letter_annotations") or {}).items():
+            bio.letter_annotations[key] = list(values)
+        parsed = Record.from_biopython(bio, taxon="bacteria")
+        parsed.record_index = spec.get("index")
+        if spec.get("skip"):
+            parsed.skip = spec["skip"]
+        return parsed
     length = spec["length"]
     rec = h.DummyRecord(seq=spec["seq"], circular=spec["circular"], record_id=spec["id"])
     if spec.get("name") is not None:
@@ -243,6 +257,8 @@ def build_record(spec: Dict[str, Any]) -> Any:
         rec.description = spec["description"]
     for key, val in spec.get("annotations", {}).items():
         rec.add_annotation(key, val)
+    if spec.get("dbxrefs"):
+        rec._record.dbxrefs = list(spec["dbxrefs"])  # pylint: disable=protected-access
     for i, (parts, name) in enumerate(spec["cds"]):
         cds = h.DummyCDS(location=loc(parts), locus_tag=name, translation="M" + "A" * 9)
         rec.add_cds_feature(cds)
@@ -427,6 +443,34 @@ def run_rpe(case: Dict[str, Any]) -> Dict[str, Any]:
     return obs
 
 
+def field_differences(got: Any, want: Any) -> List[str]:
+    """field by field: every slot / attribute of the Record and every attribute of the wrapped Bio
+       SeqRecord, each compared (recursively, as its own object graph) on its own, so that the report
+       names the field that differs"""
+    out: List[str] = []
+
+    def attrs(obj: Any) -> Dict[str, Any]:
+        found: Dict[str, Any] = {}
+        for name in _slots_of(obj):
+            try:
+                found[name] = object.__getattribute__(obj, name)
+            except AttributeError:
+                found[name] = ("<unset>",)
+        found.update(getattr(obj, "__dict__", {}) or {})
+        return found
+    mine, theirs = attrs(got), attrs(want)
+    for name in sorted(set(mine) | set(theirs)):
+        if name == "_record":
+            inner_mine, inner_theirs = attrs(mine.get(name)), attrs(theirs.get(name))
+            for inner in sorted(set(inner_mine) | set(inner_theirs)):
+                if canon(inner_mine.get(inner, ("<missing>",))) != canon(inner_theirs.get(inner, ("<missing>",))):
+                    out.append(f"wrapped SeqRecord.{inner}: {str(inner_mine.get(inner))[:120]!r} vs "
+                               f"{str(inner_theirs.get(inner))[:120]!r}")
+        elif canon(mine.get(name, ("<missing>",))) != canon(theirs.get(name, ("<missing>",))):
+            out.append(f"Record.{name} differs")
+    return out
+
+
 def _compare(results: List[Any], reference: List[Any]) -> List[str]:
     problems = []
     if len(results) != len(reference):
@@ -434,7 +478,8 @@ def _compare(results: List[Any], reference: List[Any]) -> List[str]:
     for i, (got, want) in enumerate(zip(results, reference)):
         diff = first_difference(canon(got), canon(want))
         if diff:
-            problems.append(f"record {i}: {diff}")
+            fields = field_differences(got, want)
+            problems.append(f"record {i}: {'; '.join(fields[:4]) or diff}")
     return problems
 
 
@@ -460,7 +505,11 @@ def run_rec(case: Dict[str, Any]) -> Dict[str, Any]:
             return ["fails"]
         return ["finds", len(range(30, max(len(record.seq) - 100, 0), 300))]
     given = [content(r) + [finder(r)] for r in (build_record(spec) for spec in specs)]   # separate copies: reading CDS fills caches
-    pickled = [first_difference(canon(pickle.loads(pickle.dumps(r))), canon(r)) for r in crossing]
+    pickled = []
+    for r in crossing:
+        copy = pickle.loads(pickle.dumps(r))
+        if first_difference(canon(copy), canon(r)):
+            pickled.append("; ".join(field_differences(copy, r)[:4]) or first_difference(canon(copy), canon(r)))
     obs = _guarded(lambda: base.parallel_function(func, ([r] for r in crossing), cpus=case["cpus"]),
                    case.get("limit", 30.0))
     if obs.get("blocked"):
